@@ -83,6 +83,12 @@ def make_obj(o):
     for s in o.get("subs", []):
         spec.add_sub_spec(s)
     spec.spec = o["text"]
+    if o.get("out_field"):
+        # the output is a field of an object variable: "o.value = <formula>" instead of "out = <formula>"
+        spec.import_module("vmsgs", "Msg")
+        spec.declare_var("o", "Msg")
+        assert o["text"].startswith("out = ")
+        spec.spec = "o.value = " + o["text"][len("out = "):]
     return spec
 
 
